@@ -372,7 +372,7 @@ std::string run_case(const std::vector<std::string>& w)
          auto p = vf::split(tok, ':');
          members.push_back({ p.at(1), std::stoi(p.at(2).substr(2)), {}, {} });
       }
-      else if (tok.rfind("arg:", 0) == 0) members.back().args.push_back(tok);
+      else if (tok.rfind("arg:", 0) == 0 || tok.rfind("probe:", 0) == 0) members.back().args.push_back(tok);
       else if (tok.rfind("con:", 0) == 0) members.back().cons.push_back(tok);
       else if (tok.rfind("prog:", 0) == 0) prog = vf::unhexs(tok.substr(5));
       else if (tok.rfind("file:", 0) == 0) { haveFile = true; fileContent = vf::unhexs(tok.substr(5)); }
@@ -427,6 +427,8 @@ std::string run_case(const std::vector<std::string>& w)
    std::vector<std::unique_ptr<pa::Handler>> owned;
    std::vector<std::shared_ptr<pa::Handler>> shared;
    pa::Handler* single = nullptr;
+   std::vector<std::pair<std::string, TypedArgBase*>> defined;   // slot -> argument object, for the probes
+   std::string probes;
    try
    {
       if (useGroups) pa::Groups::reset();
@@ -452,6 +454,29 @@ std::string run_case(const std::vector<std::string>& w)
          hs.push_back(h);
       };
       auto define = [&](pa::Handler* h, const std::string& a) {
+         if (a.rfind("probe:", 0) == 0)
+         {
+            // probe:<word hex> : a look-up between two definitions (Handler::getArgHandler): which
+            // argument the key designates now - "<slot>", "none" or "amb" (the look-up threw)
+            const std::string word = vf::unhexs(a.substr(6));
+            std::string answer = "none";
+            try
+            {
+               TypedArgBase* found = nullptr;
+               if (word.rfind("--", 0) == 0) found = h->getArgHandler(word.substr(2));
+               else if (word.size() == 2) found = h->getArgHandler(word.substr(1));
+               if (found != nullptr)
+               {
+                  answer = "other";
+                  for (auto& d : defined) if (d.second == found) answer = d.first;
+               }
+            } catch (const std::exception&)
+            {
+               answer = "amb";
+            }
+            probes += (probes.empty() ? "" : ",") + answer;
+            return;
+         }
          // arg:<keyspec>:<slot>:<opts>
          const size_t p1 = a.find(':', 4);
          const size_t p2 = a.find(':', p1 + 1);
@@ -478,6 +503,7 @@ std::string run_case(const std::vector<std::string>& w)
             if (!tolerated) throw;
             return;
          }
+         defined.emplace_back(slot, ta);
          for (auto& o : opts) applyOption(ta, slot, o);
       };
       auto constrain = [&](pa::Handler* h, Member& m) {
@@ -568,6 +594,7 @@ std::string run_case(const std::vector<std::string>& w)
    for (auto& xf : xfiles) ::unlink(xf.first.c_str());
    for (auto& xd : xdirs) ::rmdir(xd.c_str());
    if (outcome == "ok") res += vals;
+   if (!probes.empty() && outcome != "setup") res += " probes=" + probes;
    if (wantOut) res += " out=" + vf::hex(out.str());
    res += " ## " + excName + (outcome == "ok" ? "" : vals) + " | " + vf::hex(wantOut ? std::string() : out.str())
           + " | " + vf::hex(excMsg);
